@@ -224,6 +224,9 @@ Definition sow_ok (sc : schema) (o : obj) : bool :=
               osow o' ||
               negb (negb (is_default sc f x) || fopt f ||
                     match group_selects cur f i with Some true => true | _ => false end)
+          | PPlaceholder, HPlain (PyMsg _) =>
+              (* a selected message member always holds the message it was set to *)
+              negb (match group_selects cur f i with Some true => true | _ => false end)
           | _, _ => true
           end) && go (Datatypes.S i) raw' fs'
      | _, _ => true
@@ -376,13 +379,26 @@ Fixpoint obs_agree (sc : schema) (a b : pv) {struct a} : bool :=
   | _, _ => true
   end.
 
+(* the same observers on the attributes of the two objects themselves (no recursion: [norm_obj] is compositional,
+   so the nested messages are covered by the same statement about them) *)
+Definition obs_top (sc : schema) (a b : obj) : bool :=
+  list_eqb opt_nat_eqb (ocur a) (ocur b) &&
+  (fix go (i : nat) (ra : list pv) {struct ra} : bool :=
+     match ra with
+     | [] => true
+     | _ :: ra' =>
+         Bool.eqb (res_ok (read sc a i)) (res_ok (read sc b i)) &&
+         Bool.eqb (res_none (read sc a i)) (res_none (read sc b i)) &&
+         Bool.eqb (res_flag (read sc a i)) (res_flag (read sc b i)) && go (Datatypes.S i) ra'
+     end) O (oraw a).
+
 (* the property, as a boolean on one value *)
 Definition c01_holds (sc : schema) (o : obj) : bool :=
   match enc_obj sc o with
   | Ok bs =>
       match parse sc (ocls o) bs with
       | Ok o' =>
-          obj_eq sc o o' && obs_agree sc (PMsg o) (PMsg o') &&
+          obj_eq sc o o' && obs_agree sc (PMsg o) (PMsg o') && obs_top sc o o' &&
           match enc_obj sc o' with Ok bs' => bytes_eqb bs bs' | Err _ => false end
       | Err _ => false
       end
